@@ -37,7 +37,13 @@ type regCtl struct {
 	rereg  []map[string]bool // chain -> account re-registered during the history
 	cases  map[string]bool
 	tssSeq uint64
+	// tssCur[chain] = the account configured as TSS account in that chain's TSS client (changed by an accepted client update
+	// that names another address: the old account loses its authority, the new one gains it)
+	tssCur []kit.Account
 }
+
+// tss is the account currently configured as TSS account on chain ci.
+func (c *regCtl) tss(ci int) kit.Account { return c.tssCur[ci] }
 
 func (c *regCtl) names(ci int) []string {
 	var ns []string
@@ -218,10 +224,12 @@ func (c *regCtl) tssRecv(t *rapid.T) {
 	pk := packettypes.Packet{SrcChain: bridge.TSSName, DstChain: ch.ChainID, Sequence: c.tssSeq, Sender: "0xs", TransferData: tdBz, CallData: []byte{}}
 	bz, _ := pk.ABIPack()
 	want, reg := c.authorised(ci, s, bridge.TSSName)
-	auth := reg && s.Acc.Equals(w.TSS.Acc)
+	auth := reg && s.Acc.Equals(c.tss(ci).Acc)
 	cls := c.class(ci, s, bridge.TSSName)
-	if s.Acc.Equals(w.TSS.Acc) {
+	if s.Acc.Equals(c.tss(ci).Acc) {
 		cls = "tss-account-" + cls
+	} else if s.Acc.Equals(w.TSS.Acc) {
+		cls = "former-tss-account-" + cls
 	}
 	out := w.DeliverDumped(ci, s, packettypes.NewMsgRecvPacket(bz, c.tssProofField(t), bridge.H(0, 1), s.Acc))
 	c.judge("recv", "tss", cls, auth, out, fmt.Sprintf("TSS-path receive on chain %d by %s", ci, s.Acc))
@@ -240,14 +248,22 @@ func (c *regCtl) tssUpdate(t *rapid.T) {
 	w := m.W
 	ci := rapid.IntRange(0, len(w.Chains)-1).Draw(t, "chain")
 	s := c.signer(t)
-	hdr := &tsstypes.Header{TssAddress: w.TSS.Acc.String(), Pubkey: []byte("pubkey2"), PartPubkeys: [][]byte{[]byte("p")}, Threshold: 1}
+	// the header names the TSS account from now on: mostly the current one (key rotation), sometimes another account of the
+	// pool (the TSS role moves)
+	next := c.tss(ci)
+	if rapid.IntRange(0, 2).Draw(t, "tssMoves") == 0 {
+		next = c.pool[rapid.IntRange(0, len(c.pool)-1).Draw(t, "nextTSS")]
+	}
+	hdr := &tsstypes.Header{TssAddress: next.Acc.String(), Pubkey: []byte("pubkey2"), PartPubkeys: [][]byte{[]byte("p")}, Threshold: 1}
 	msg, err := clienttypes.NewMsgUpdateClient(bridge.TSSName, hdr, s.Acc)
 	kit.Must(err, "tss update msg")
 	_, reg := c.authorised(ci, s, bridge.TSSName)
-	auth := reg && s.Acc.Equals(w.TSS.Acc)
+	auth := reg && s.Acc.Equals(c.tss(ci).Acc)
 	cls := c.class(ci, s, bridge.TSSName)
-	if s.Acc.Equals(w.TSS.Acc) {
+	if s.Acc.Equals(c.tss(ci).Acc) {
 		cls = "tss-account-" + cls
+	} else if s.Acc.Equals(w.TSS.Acc) {
+		cls = "former-tss-account-" + cls
 	}
 	out := w.DeliverDumped(ci, s, msg)
 	if auth {
@@ -255,6 +271,10 @@ func (c *regCtl) tssUpdate(t *rapid.T) {
 		c.note("update", "tss", cls, out.Res.OK())
 		if !out.Res.OK() && !out.Unchanged() {
 			m.Failf("rejected TSS update changed state:\n%s", out.DiffString())
+		}
+		if out.Res.OK() && !next.Acc.Equals(c.tss(ci).Acc) {
+			c.tssCur[ci] = next
+			m.R.Label("tss_role_moved_to_another_account")
 		}
 	} else {
 		c.judge("update", "tss", cls, false, out, fmt.Sprintf("TSS client update on chain %d by %s", ci, s.Acc))
@@ -293,9 +313,11 @@ func (c *regCtl) tssAck(t *rapid.T) {
 	ack := packettypes.NewAcknowledgement(code, []byte{}, "", relAddr, 0)
 	ackBz, _ := ack.ABIPack()
 	cls := c.class(p.SrcIdx, s, bridge.TSSName)
-	isTSS := s.Acc.Equals(w.TSS.Acc)
+	isTSS := s.Acc.Equals(c.tss(p.SrcIdx).Acc)
 	if isTSS {
 		cls = "tss-account-" + cls
+	} else if s.Acc.Equals(w.TSS.Acc) {
+		cls = "former-tss-account-" + cls
 	}
 	out := w.DeliverDumped(p.SrcIdx, s, packettypes.NewMsgAcknowledgement(p.Bz, ackBz, c.tssProofField(t), bridge.H(0, 1), s.Acc))
 	if !isTSS {
@@ -360,6 +382,9 @@ func runRegistry(t *rapid.T, r *rec.Recorder) {
 	m := bridge.NewMachine(t, r)
 	w := m.W
 	c := &regCtl{m: m, cases: map[string]bool{}, pool: []kit.Account{w.Rels[0], w.Rels[1], w.TSS, w.Outsider}}
+	for range w.Chains {
+		c.tssCur = append(c.tssCur, w.TSS)
+	}
 	for ci := range w.Chains {
 		c.reg = append(c.reg, map[string]map[string]string{})
 		c.rereg = append(c.rereg, map[string]bool{})
